@@ -27,8 +27,9 @@ type muxOp struct {
 }
 
 type muxFault struct {
-	At   int    `json:"at"`   // index of the failing Write call (0-based, over the whole scenario)
-	Mode string `json:"mode"` // perm | once
+	At   int    `json:"at"`            // index of the failing Write call (0-based, over the whole scenario)
+	Mode string `json:"mode"`          // perm | once | oncefull | permfull | pattwice | cancel
+	At2  int    `json:"at2,omitempty"` // pattwice: At and At2 are ordinals (1-based) among the Write calls that carry a PAT packet
 }
 
 type muxScenario struct {
@@ -54,6 +55,8 @@ type recWriter struct {
 	fault   *muxFault
 	fired   int // number of times the fault fired
 	firedAt []int
+	pats    int    // Write calls that carried a PAT packet so far
+	cancel  func() // mode "cancel": cancels the Muxer's context
 }
 
 func (w *recWriter) Write(p []byte) (int, error) {
@@ -70,6 +73,21 @@ func (w *recWriter) Write(p []byte) (int, error) {
 		w.firedAt = append(w.firedAt, idx)
 		w.buf.Write(p)
 		return len(p), errInjected
+	}
+	// the same kind of failure twice in one history, each time on a Write carrying a PAT packet (the PMT behind it is then never written)
+	if w.fault != nil && w.fault.Mode == "pattwice" && len(p) == 188 && p[0] == 0x47 && p[1]&0x1f == 0 && p[2] == 0 {
+		w.pats++
+		if w.pats == w.fault.At || w.pats == w.fault.At2 {
+			w.fired++
+			w.firedAt = append(w.firedAt, idx)
+			w.buf.Write(p)
+			return len(p), errInjected
+		}
+	}
+	// a writer that never fails but during whose Write the context given to NewMuxer is cancelled (the caller gives up while a call is
+	// under way): the call goes on or stops between packets, it leaves no partial packet
+	if w.fault != nil && w.fault.Mode == "cancel" && idx == w.fault.At && w.cancel != nil {
+		w.cancel()
 	}
 	return w.buf.Write(p)
 }
@@ -182,7 +200,10 @@ func runMuxOn(sc *muxScenario, rec *recorder, w *recWriter) {
 	if period <= 0 {
 		period = 40
 	}
-	m := astits.NewMuxer(context.Background(), w, astits.MuxerOptTablesRetransmitPeriod(period))
+	mctx, mcancel := context.WithCancel(context.Background())
+	defer mcancel()
+	w.cancel = mcancel
+	m := astits.NewMuxer(mctx, w, astits.MuxerOptTablesRetransmitPeriod(period))
 	r := newRng(sc.Seed ^ hashStr(sc.SID))
 	fmode, fat := "none", -1
 	if sc.Fault != nil {
@@ -331,7 +352,7 @@ func runMuxOn(sc *muxScenario, rec *recorder, w *recWriter) {
 		e["part"] = delta % 188
 		e["wcalls"] = w.wcalls - wcBefore
 		e["wfail"] = w.fired > firedBefore
-		e["wfull"] = w.fault != nil && (w.fault.Mode == "oncefull" || w.fault.Mode == "permfull") // the failing Write took all it was given
+		e["wfull"] = w.fault != nil && (w.fault.Mode == "oncefull" || w.fault.Mode == "permfull" || w.fault.Mode == "pattwice") // the failing Write took all it was given
 		if op.Pred != nil {
 			e["pred"] = *op.Pred
 		}
